@@ -58,7 +58,7 @@ func steady(ops []wreq, start uint64, seconds, perSec int, b uint32) []wreq {
 func witness(id int) (wuCase, bool) {
 	t := caseBase(id)
 	switch id - wuBase {
-	case 0: // D9: empty token range, threshold < 1
+	case 0: // D9 (NaN repaired): empty token range, threshold < 1; what remains is that the rule has no cold phase
 		c := wuCase{ID: id, Name: "D9-threshold-0.5-period-1-cold-3", T: 0.5, Period: 1, CF: 3}
 		for i := 0; i < 100; i++ {
 			c.Ops = append(c.Ops, wreq{Ms: t + 100, B: 1})
@@ -85,6 +85,20 @@ func witness(id int) (wuCase, bool) {
 		for i := 0; i < 6; i++ {
 			c.Ops = append(c.Ops, wreq{Ms: t + 10 + 602000, B: 1})
 		}
+		return c, true
+	case 6: // a NaN threshold passes flow.IsValidRule (NaN < 0 is false)
+		c := wuCase{ID: id, Name: "NaN-threshold-accepted-as-valid", T: fl(math.NaN()), Period: 10, CF: 3}
+		for i := 0; i < 30; i++ {
+			c.Ops = append(c.Ops, wreq{Ms: t + 100, B: 1})
+		}
+		return c, true
+	case 7: // threshold 0 with a warm-up rule must block everything (was NaN: everything admitted)
+		c := wuCase{ID: id, Name: "threshold-0", T: 0, Period: 5, CF: 3}
+		c.Ops = steady(c.Ops, t+10, 5, 4, 1)
+		return c, true
+	case 8: // warningToken = 0 < maxToken (period*T/(cf-1) < 1 <= 2*period*T/(cf+1)), threshold far below cold factor
+		c := wuCase{ID: id, Name: "warning-token-zero", T: 3, Period: 1, CF: 5}
+		c.Ops = steady(c.Ops, t+10, 25, 1, 1)
 		return c, true
 	case 5: // ordinary warm-up, threshold 12, period 3, saturating demand then idle then again
 		c := wuCase{ID: id, Name: "ordinary", T: 12, Period: 3, CF: 3}
@@ -192,7 +206,9 @@ func runWu(c wuCase, clk *vclock.Clock) wuObs {
 // ---- monitor ------------------------------------------------------------------------------
 
 const (
-	sigD9      = "warmup-empty-token-range-nan-threshold-admits-all"
+	sigD9      = "warmup-empty-token-range-nan-threshold-admits-all" // repaired in /repo; not listed any more
+	sigNoCold  = "warmup-empty-token-range-no-cold-phase"
+	sigNaNThr  = "non-finite-threshold-accepted-by-isvalidrule"
 	sigD10     = "warmup-threshold-below-coldfactor-starved"
 	sigD10eq   = "warmup-threshold-equals-coldfactor-rounding-starved"
 	sigStuck   = "warmup-stuck-at-warning-line-never-cools"
@@ -217,6 +233,16 @@ func monitorWu(c wuCase, o wuObs, rep *emit.Report) (nontrivial bool) {
 		rep.Fail(c.ID, "C11_wu_constants", "cold-factor-default", fmt.Sprintf("cold factor in force %d, expected %d", o.CF, cf), c)
 		return
 	}
+	if math.IsNaN(T) || math.IsInf(T, 0) {
+		// the rule is in force (runWu checks it): IsValidRule accepted a non-finite threshold
+		for i := range c.Ops {
+			if a := float64(o.Allowed[i]); math.IsNaN(a) || math.IsInf(a, 0) {
+				fail(i, "C11_wu_finite_nonneg", sigNaNThr, "threshold=%v passed flow.IsValidRule; allowed=%v admitted=%v", T, a, o.Adm[i])
+				break
+			}
+		}
+		return false
+	}
 	W, M := int64(o.Warning), int64(o.Max)
 	degenerate := M == W
 	if T > 0 {
@@ -234,7 +260,7 @@ func monitorWu(c wuCase, o wuObs, rep *emit.Report) (nontrivial bool) {
 			return
 		}
 	}
-	tol := T * (1 + math.Pow(2, -50))
+	tol := math.Nextafter(T*(1+math.Pow(2, -50)), math.Inf(1)) // threshold 0: the Nextafter bump gives the least subnormal
 	var passT []uint64 // admitted (time, batch) ledger
 	var passB []uint32
 	windowSum := func(now uint64) int64 { // admitted tokens in the sliding window of the reject checker
@@ -294,7 +320,7 @@ func monitorWu(c wuCase, o wuObs, rep *emit.Report) (nontrivial bool) {
 		if math.IsNaN(a) || math.IsInf(a, 0) || a < 0 {
 			sig := "warmup-allowed-not-finite-nonneg"
 			if degenerate {
-				sig = sigD9
+				sig = sigD9 // repaired; reported as unlisted if it comes back
 			}
 			fail(i, "C11_wu_finite_nonneg", sig, "allowed=%v warningToken=%d maxToken=%d slope=%v", a, W, M, float64(o.Slope))
 		} else {
@@ -319,6 +345,13 @@ func monitorWu(c wuCase, o wuObs, rep *emit.Report) (nontrivial bool) {
 					sig = sigStuck
 				}
 				fail(i, "C11_wu_cold_start", sig, "idle %d ms, allowed=%v, threshold/coldFactor=%v, stored tokens before=%d warningToken=%d", q.Ms-c.Ops[maxi(i-1, 0)].Ms, a, T/float64(cf), o.Stored[maxi(i-1, 0)], W)
+			}
+		}
+		// 3b. empty token range: the rule in force is a plain threshold, it has no cold phase
+		if degenerate && T > 0 && !math.IsNaN(a) {
+			idle := i == 0 || q.Ms-c.Ops[i-1].Ms >= 5000
+			if idle && a > T/float64(cf)*(1+1e-9) {
+				fail(i, "C11_wu_cold_start", sigNoCold, "warningToken=maxToken=%d: allowed=%v after idle, threshold/coldFactor=%v", W, a, T/float64(cf))
 			}
 		}
 		// 4. full threshold after sustained saturating demand
@@ -388,6 +421,8 @@ func runWuCase(a cli.Args, root *rng.R, rep *emit.Report, dist *emit.Distinct, s
 	T := float64(c.T)
 	cf := float64(o.CF)
 	switch {
+	case math.IsNaN(T) || math.IsInf(T, 0):
+		rep.Count("wu_thr_not_finite", 1)
 	case T < 1:
 		rep.Count("wu_thr_below_one", 1)
 	case T < cf:
